@@ -54,6 +54,8 @@ Fmt == /\ Is("fmt")
             THEN (IF Ev.ok THEN <<[kind |-> "invalid-accepted"]>> ELSE <<>>)
                  \o (IF Ev.text # cur THEN <<[kind |-> "text-changed-on-error"]>> ELSE <<>>)
             ELSE IF ~Ev.ok THEN <<[kind |-> "valid-rejected"]>>
+                                    \* formatting a text the formatter itself produced must return it unchanged
+                                    \o (IF formatted THEN <<[kind |-> "not-idempotent"]>> ELSE <<>>)
             ELSE EmsFails(Ev.ems)
                  \o (IF Ev.parses THEN <<>> ELSE <<[kind |-> "output-does-not-parse"]>>)
                  \o (IF formatted /\ Ev.text # cur THEN <<[kind |-> "not-idempotent"]>> ELSE <<>>)
